@@ -69,6 +69,15 @@ type FakeRd struct{}
 
 func (FakeRd) ReadAll() string { return "" }
 
+// types of the analysed package itself that are named like the ones asked for (a lookup must not start in the current package's scope)
+type Reader interface{ LocalRead() }
+type Buffer struct{ local int }
+type Stringer interface{ LocalString() }
+type LocalRd struct{}
+
+func (LocalRd) LocalRead()   {}
+func (LocalRd) LocalString() {}
+
 type Both struct{}
 
 func (Both) Read(p []byte) (int, error) { return 0, nil }
@@ -79,7 +88,7 @@ func (Both) Done() bool                 { return false }
 `
 
 func laTargets() []laTarget {
-	loc := []string{"RealRd{}", "FakeRd{}", "Both{}", "0"}
+	loc := []string{"RealRd{}", "FakeRd{}", "Both{}", "0", "LocalRd{}", "Buffer{}", "Reader(nil)", "Stringer(nil)"}
 	return []laTarget{
 		{"onlyLookalikes", []string{`xio "example.com/x/io"`, `xbytes "example.com/x/bytes"`, `yfmt "example.com/y/fmt"`, `xctx "golang.org/x/net/context"`},
 			[]string{"example.com/x/io", "example.com/x/bytes", "example.com/y/fmt"}, "",
